@@ -108,7 +108,7 @@ CONTRACTS = {
     "tun.getattr_cls": {"kind": "external", "params": {"cls": "py", "name": "Str"}, "returns": "Ref:tunable", "ensures": {"class attribute": "result is cattr(name)"},
                         "note": "getattr(cls, n): the class attribute (for a tunable: the descriptor itself, via tunable.__get__(None, cls))"},
     "inspect.getmembers": {"kind": "external", "params": {"obj": "py", "pred": "py"}, "returns": "Seq[(Str,Ref:Method)]", "pure_result": "g_members",
-                           "ensures": {"bound methods": "forall(j, Int, implies(0 <= j and j < len(result), result[j][1] is not None))"}, "note": "inspect.getmembers(component, inspect.ismethod)"},
+                           "ensures": {"bound methods, one object per member name": "forall(j, Int, implies(0 <= j and j < len(result), result[j][1] is not None)) and forall(j, Int, forall(k, Int, implies(0 <= j and j < k and k < len(result), not (result[j][1] is result[k][1]))))"}, "note": "inspect.getmembers(component, inspect.ismethod)"},
     "typing.get_type_hints": {"kind": "external", "params": {"m": "Ref:Method"}, "returns": "Map[Str,Ref:TypeObj]", "ensures": {}, "note": "typing.get_type_hints(method)"},
     "_get_topic_type": {"kind": "external", "params": {"annotation": "Ref:TypeObj"}, "returns": "Ref:TopicType", "ensures": {"the topic class the tables give for this annotation (None if none)": "result is topic_of_hint(annotation)"}, "verify": False,
                         "note": "_get_topic_type: type-hint -> ntcore topic class table (structural check C09.T1 + bounded stand-in)"},
@@ -254,14 +254,25 @@ CONTRACTS = {
         "params": {"component": "py", "cname": "Str", "prefix": "Opt[Str]"}, "defaults": {"prefix": "components"},
         "returns": "Seq[(Ref:Method,Ref:FbSetterW)]", "local_sorts": {"feedbacks": "Seq[(Ref:Method,Ref:FbSetterW)]"},
         "modifies": ["FbSetterW.target[*]", "FbSetterW.kind[*]"],
-        "loops": {0: {"inv": {"table bound to the owner's path": "nt is not None and nt.path == base(entry(prefix), cname)", "list well formed": "len(feedbacks) >= 0"},
+        "loops": {0: {"inv": {"table bound to the owner's path": "nt is not None and nt.path == base(entry(prefix), cname)", "list well formed": "len(feedbacks) >= 0",
+                              "C11.K3 (so far) getters are the members seen (each once), setters are new, pairwise distinct objects":
+                                  "forall(a, Int, implies(0 <= a and a < len(feedbacks), feedbacks[a][0] is not None and feedbacks[a][1] is not None and allocated(feedbacks[a][1]) and not old(allocated(feedbacks[a][1])) and "
+                                  "exists(j, Int, 0 <= j and j < __i and feedbacks[a][0] is g_members[j][1]))) and "
+                                  "forall(a, Int, forall(b, Int, implies(0 <= a and a < b and b < len(feedbacks), not (feedbacks[a][1] is feedbacks[b][1]) and "
+                                  "exists(j, Int, exists(k, Int, 0 <= j and j < k and k < __i and feedbacks[a][0] is g_members[j][1] and feedbacks[b][0] is g_members[k][1])))))"},
                       "body_post": {
             "C11.K1 a @feedback method is paired with a setter of the entry/topic <owner path>/<key>, key = explicit key, else the method name with a leading 'get_' removed":
                 {"when": "is_fb(method)", "then": "(len(feedbacks) == local_at_iter_start(len(feedbacks)) + 1 and feedbacks[len(feedbacks) - 1][0] is method and key == fkey(name, method) and "
                 "(cast(feedbacks[len(feedbacks) - 1][1].target, 'NTEntry').key if feedbacks[len(feedbacks) - 1][1].kind == 0 else cast(feedbacks[len(feedbacks) - 1][1].target, 'Publisher').key) == base(entry(prefix), cname) + '/' + fkey(name, method))"},
             "C11.K2 other methods are not published": "implies(not is_fb(method), len(feedbacks) == local_at_iter_start(len(feedbacks)))",
         }}},
-        "ensures": {"a list of (getter, setter) pairs": "len(result) >= 0"},
+        "ensures": {"a list of (getter, setter) pairs": "len(result) >= 0",
+                    "C11.K3 every pair holds an existing getter (a bound method of the object: one of inspect.getmembers' entries, each used once) and a new setter object; setters are pairwise distinct":
+                        "forall(a, Int, implies(0 <= a and a < len(result), result[a][0] is not None and result[a][1] is not None and not old(allocated(result[a][1])) and "
+                        "exists(j, Int, 0 <= j and j < len(g_members) and result[a][0] is g_members[j][1]))) and "
+                        "forall(a, Int, forall(b, Int, implies(0 <= a and a < b and b < len(result), not (result[a][1] is result[b][1]) and "
+                        "exists(j, Int, exists(k, Int, 0 <= j and j < k and k < len(g_members) and result[a][0] is g_members[j][1] and result[b][0] is g_members[k][1])))))",
+                    "C11.K4 (W4) getters are pairwise distinct objects too": "forall(a, Int, forall(b, Int, implies(0 <= a and a < b and b < len(result), not (result[a][0] is result[b][0]))))"},
     },
 }
 NAMES = {"dir": ("contract", "tun.dir")}
